@@ -516,7 +516,8 @@ func (l *lexer) scan() {
 					p += 7
 					l.column += 7
 				} else if jsComment == jsCommentLine {
-					if c == '\n' || c == '\r' {
+					// LF, CR, U+2028 and U+2029 terminate a line.
+					if c == '\n' || c == '\r' || c == 0xE2 && p+2 < len(l.src) && l.src[p+1] == 0x80 && (l.src[p+2] == 0xA8 || l.src[p+2] == 0xA9) {
 						jsComment = jsCommentNone
 					}
 				} else if jsComment == jsCommentBlock {
